@@ -75,6 +75,11 @@ def _mirror_proof(method):
                        lambda i: DET(i) + ORD(i) + [P.inst('xr:one-minus', ci(Pf, 'time_peak', i), ci(Pf, 'time_trough', i))])
         using = E.case.setdefault('ensures_using', {})
         k1 = k0 + 2                                   # period, volt_amp, band_amp, then the burst features
+        P.forall('xr:add-comm', [xa, xb], z3.And(xops.wf(xa), xops.wf(xb)), xops.same(xops.add(X(xa), X(xb)), xops.add(X(xb), X(xa))))
+        xr0 = lambda F, c, x: xops.to_x(E.rd(F.cols[c], x)).t
+        P.prove_clause('mirror:volt_amp', clauses[k1 + 1], env2,
+                       lambda i: DET(i) + ORD(i) + [P.inst('xr:add-comm', xr0(Pf, 'volt_decay', i), xr0(Pf, 'volt_rise', i))])
+        using[k1 + 2] = ['mirror:volt_amp']
         xr = lambda F, c, x: xops.to_x(E.rd(F.cols[c], x)).t
         near = lambda i: DET(i - 1) + DET(i) + DET(i + 1) + ORD(i - 1) + ORD(i) + ORD(i + 1)
 
@@ -110,35 +115,39 @@ def _mirror_proof(method):
                            lambda i: DET(i) + ORD(i) + list(E.st.ghost['facts'].get('seq-neg', [])))
             for off, nm in ((3, 'amp_fraction'), (4, 'amp_consistency'), (5, 'period_consistency'), (6, 'monotonicity')):
                 using[k1 + off + 1] = ['mirror:' + nm]
-            # is_burst: both labellings are minrun of a qualifying mask that is a pointwise function of the four features
-            # (equal by the clauses just proved); the masks are range-restricted lambdas, equal by array extensionality
-            F_ = E.st.ghost['facts']
+        if method == 'amp':
+            P.prove_clause('mirror:burst_fraction', clauses[k1 + 3], env2, lambda i: DET(i) + ORD(i))
+            using[k1 + 4] = ['mirror:burst_fraction']
+        k_is = k1 + (7 if method == 'cycles' else 4)
+        # is_burst: both labellings are minrun of a qualifying mask that is a pointwise function of the four features
+        # (equal by the clauses just proved); the masks are range-restricted lambdas, equal by array extensionality
+        F_ = E.st.ghost['facts']
 
-            def find_apps(t, name, acc):
-                if z3.is_app(t) and t.decl().name() == name:
-                    acc.append(t)
-                for ch in ([t.body()] if z3.is_quantifier(t) else t.children()):
-                    find_apps(ch, name, acc)
-                return acc
-            goal_f = E.spec_bool(clauses[k1 + 7], env2)
-            masks = []
-            for a_ in find_apps(goal_f, 'minrun', []):
-                if not any(a_.arg(0).eq(m_) for m_ in masks):
-                    masks.append(a_.arg(0))
-            if len(masks) != 2:
-                raise Unsupported('is_burst clause: expected two qualifying masks, found %d' % len(masks))
-            LT, LP = masks
-            kk = z3.Int('M_kk')
-            inst4 = lambda x: [P.inst_formula(F_['mirror:' + nm], x) for nm in
-                               ('amp_fraction', 'amp_consistency', 'period_consistency', 'monotonicity')]
-            P.forall('mask-pointwise', [kk], z3.BoolVal(True), z3.Select(LT, kk) == z3.Select(LP, kk),
-                     by=[P.instq(DEF, 0)] + inst4(kk))
-            P.ground('mask-equal', LT == LP, by=[F_['mask-pointwise']])
-            P.prove_clause('mirror:is_burst', clauses[k1 + 7], env2,
-                           lambda i: [P.instq(DEF, 0)] + [P.inst_formula(f, i) for C in (C1, C2) for f in F_[C]
-                                                          if 'cf.is_burst!' in f.sexpr()] +
-                           [P.inst('mask-equal')])
-            using[k1 + 8] = ['mirror:is_burst']
+        def find_apps(t, name, acc):
+            if z3.is_app(t) and t.decl().name() == name:
+                acc.append(t)
+            for ch in ([t.body()] if z3.is_quantifier(t) else t.children()):
+                find_apps(ch, name, acc)
+            return acc
+        goal_f = E.spec_bool(clauses[k_is], env2)
+        masks = []
+        for a_ in find_apps(goal_f, 'minrun', []):
+            if not any(a_.arg(0).eq(m_) for m_ in masks):
+                masks.append(a_.arg(0))
+        if len(masks) != 2:
+            raise Unsupported('is_burst clause: expected two qualifying masks, found %d' % len(masks))
+        LT, LP = masks
+        kk = z3.Int('M_kk')
+        feats_ = ('amp_fraction', 'amp_consistency', 'period_consistency', 'monotonicity') if method == 'cycles' else ('burst_fraction',)
+        inst4 = lambda x: [P.inst_formula(F_['mirror:' + nm], x) for nm in feats_]
+        P.forall('mask-pointwise', [kk], z3.BoolVal(True), z3.Select(LT, kk) == z3.Select(LP, kk),
+                 by=[P.instq(DEF, 0)] + inst4(kk))
+        P.ground('mask-equal', LT == LP, by=[F_['mask-pointwise']])
+        P.prove_clause('mirror:is_burst', clauses[k_is], env2,
+                       lambda i: [P.instq(DEF, 0)] + [P.inst_formula(f, i) for C in (C1, C2) for f in F_[C]
+                                                      if 'cf.is_burst!' in f.sexpr()] +
+                       [P.inst('mask-equal')])
+        using[k_is + 1] = ['mirror:is_burst']
     return h
 
 
